@@ -35,7 +35,7 @@ class Exec:
         case = chainexec.gen_case(random.Random(init["hist_seed"]), tuple(init["cfg"]), init["n_blocks"], 0.0, ["C01"], p_tx=0.8, p_fork=0.25)
         self.run = chainexec.Run(case, ("C14",))
         self.run.execute()
-        if self.run.harness:
+        if self.run.degenerate():
             raise env.HarnessError(self.run.harness[0])
         self.wkeys = [KEYS[i] for i in init["wallet_keys"]]
         self.wallet = Wallet({k.pub: k.priv for k in self.wkeys}, [k.pub for k in self.wkeys], {})
